@@ -597,6 +597,16 @@ def one_history(ctx, length):
         record(i)
     for i in h.of_kind("cls"):
         record_cls(i)
+    if r.random() < 0.2:
+        # directed: a validator object whose schema refers to an id nobody has registered yet, then a
+        # class created with a version whose metaschema carries that id (the object's resolver was
+        # fixed when the object was built: registrations made later do not reach it)
+        meta = r.choice([m for m in CUSTOM_METAS if "$id" in m or "id" in m])
+        idk = r.choice([k for k in ("$id", "id") if k in meta])
+        refd = [sc for sc, _ in SCHEMAS if isinstance(sc, dict) and sc.get("$ref") == meta[idk]]
+        if refd:
+            h.pending += [["newValidator", r.choice(h.of_kind("cls")), refd[0], [], None],
+                          ["create", meta, gen_kwarg(r, h, False), r.choice(VERSIONS), None, None, idk]]
     # a first round of probes of the initial objects on both sides
     for i in range(len(h.heap)):
         for q in r.sample(recorded[i][0], min(3, len(recorded[i][0]))):
